@@ -2,6 +2,7 @@
 //! any roll-backs". See history.rs (oracles), reader.rs (chain-sync model), sut.rs (wiring of the
 //! real importer / streamer / sqlite repositories / signable builders).
 mod history;
+mod model;
 mod node;
 mod oracle;
 mod reader;
@@ -32,7 +33,7 @@ fn runtime() -> tokio::runtime::Runtime {
 /// a freshly migrated, empty database file that fresh reference databases are copied from
 fn make_template(dir: &Path) -> Option<PathBuf> {
     let p = dir.join("template.db");
-    let node = Arc::new(Mutex::new(Node::new(ChainProfile { sparse_numbers: false, empty_block_pct: 0, drought_toggle_pct: 0 })));
+    let node = Arc::new(Mutex::new(Node::new(ChainProfile { sparse_numbers: false, empty_block_pct: 0, drought_toggle_pct: 0, first_number: None })));
     match Sut::open(&p, &SutConfig::reference(), node, Arc::new(AtomicU64::new(0))) {
         Ok(s) => {
             drop(s);
@@ -50,7 +51,7 @@ fn make_template(dir: &Path) -> Option<PathBuf> {
 /// node that imports exactly to the beacon.
 async fn fixed_probe(mon: &mut Monitor, dir: &Path, template: &Option<PathBuf>) {
     let mut rng = mon.rng("c13-probe", 0);
-    let mut node = Node::new(ChainProfile { sparse_numbers: false, empty_block_pct: 0, drought_toggle_pct: 0 });
+    let mut node = Node::new(ChainProfile { sparse_numbers: false, empty_block_pct: 0, drought_toggle_pct: 0, first_number: Some(1) });
     node.forward(50, &mut rng);
     let first = node.at(0).number;
     let node = Arc::new(Mutex::new(node));
@@ -73,8 +74,8 @@ async fn fixed_probe(mon: &mut Monitor, dir: &Path, template: &Option<PathBuf>) 
     let mut rows = vec![];
     for b in [14u64, 15, 24, 29, 30, 40, depth] {
         let Some(exact) = fresh(&format!("probe-{b}.db")) else { continue };
-        let e_v = exact.sign_v2(b).await.unwrap_or_else(|e| format!("error: {e}"));
-        let e_l = exact.sign_legacy(b).await.unwrap_or_else(|e| format!("error: {e}"));
+        let e_v = exact.sign_v2(b).await.root;
+        let e_l = exact.sign_legacy(b).await.root;
         let d_v = deep.root_v2(b).await;
         let d_l = deep.root_legacy(b).await;
         mon.eval();
@@ -104,6 +105,51 @@ async fn fixed_probe(mon: &mut Monitor, dir: &Path, template: &Option<PathBuf>) 
     let _ = std::fs::remove_file(p);
 }
 
+/// Hand-sized deterministic histories (consecutive block numbers 1.., at least one transaction per
+/// block): one per witness class seen on the pinned tree, so that every run re-observes (or stops
+/// observing, once repaired) each of them on a readable example.
+async fn scripted_scenarios(mon: &mut Monitor, dir: &Path, template: &Option<PathBuf>, only: Option<u64>) {
+    use crate::history::Step::*;
+    use crate::history::Via;
+    use crate::sut::Flavour;
+    let aggregator = SutConfig { flavour: Flavour::Aggregator, pool_size: 2, prune_keep: None, chunk: None, max_roll_forwards_per_poll: 100, sqlite_mktree: false };
+    let signer = SutConfig { flavour: Flavour::Signer, pool_size: 1, prune_keep: None, chunk: None, max_roll_forwards_per_poll: 100, sqlite_mktree: false };
+    let scenarios: Vec<(&str, SutConfig, Vec<history::Step>)> = vec![
+        (
+            "restart while the resume point (highest stored block) is on an abandoned fork: chain 1..40, import(30), node switches at block 20 to a fork 21'..45', restart, import(40)",
+            aggregator.clone(),
+            vec![Forward(40), Import(30, Via::Importer), RollBackToNumber(20), Forward(25), Restart, Import(40, Via::Importer)],
+        ),
+        (
+            "import with a target below the highest stored block after a roll-back below that target: chain 1..60, import(50), node switches at block 20 to a fork 21'..70', sign beacon 45",
+            aggregator.clone(),
+            vec![Forward(60), Import(50, Via::Importer), RollBackToNumber(20), Forward(50), Import(45, Via::V2Builder)],
+        ),
+        (
+            "the node re-organises back to the importer's resume point while the importer is streaming: chain 1..30, import(20), chain grows to 40, import(35) during which (after blocks 21..25 were relayed) the node switches at block 20 to a fork 21'..45'",
+            aggregator.clone(),
+            vec![Forward(30), Import(20, Via::Importer), Forward(10), ImportWithReorg(35, 6, 20, 25)],
+        ),
+        (
+            "roll-back into a block range whose first blocks are pruned: chain 1..100, import(100), prune keeping 10 blocks (threshold 65, range [60,75) partly pruned), node switches at block 70 to a fork 71'..110', import(110)",
+            signer.clone(),
+            vec![Forward(100), Import(100, Via::Importer), Prune(10), RollBackToNumber(70), Forward(40), Import(110, Via::Importer)],
+        ),
+        (
+            "roll-back to a block below the pruned part of the store: chain 1..100, import(100), prune keeping 10 blocks (blocks < 65 removed), node switches at block 50 to a fork 51'..110', import(105)",
+            signer.clone(),
+            vec![Forward(100), Import(100, Via::Importer), Prune(10), RollBackToNumber(50), Forward(60), Import(105, Via::Importer)],
+        ),
+    ];
+    for (i, (name, cfg, script)) in scenarios.into_iter().enumerate() {
+        if only.is_some() && only != Some(i as u64) {
+            continue;
+        }
+        let mut h = History::scripted(mon, dir, template.clone(), i as u64, cfg, only.is_some());
+        h.run_script(name, &script).await;
+    }
+}
+
 fn main() {
     let args = vcore::parse_args();
     vcore::install_panic_hook();
@@ -129,10 +175,14 @@ fn main() {
             std::process::exit(2);
         };
         let mut m = Monitor::with("C13", args.tier, seed);
-        runtime().block_on(async {
-            let mut h = History::new(&mut m, &dir, template.clone(), shard, index, true);
-            h.run().await;
-        });
+        if shard == history::SCRIPTED_SHARD {
+            runtime().block_on(scripted_scenarios(&mut m, &dir, &template, Some(index)));
+        } else {
+            runtime().block_on(async {
+                let mut h = History::new(&mut m, &dir, template.clone(), shard, index, true);
+                h.run().await;
+            });
+        }
         let _ = std::fs::remove_dir_all(&dir);
         m.finish("replay of a single history", &[], 0);
     }
@@ -150,7 +200,15 @@ fn main() {
         }
     }
 
+    match runtime().block_on(reader::self_check()) {
+        Ok(()) => {
+            mon.extra.insert("chain_sync_model_self_check".into(), json!("passed (sequences of the repo's pallas_chain_reader tests + origin roll-back on a new connection + fork switch)"));
+        }
+        Err(e) => mon.inconclusive(&e),
+    }
+    mon.max_samples = 9;
     runtime().block_on(fixed_probe(&mut mon, &dir, &template));
+    runtime().block_on(scripted_scenarios(&mut mon, &dir, &template, None));
 
     let (shards, per, budget_s): (u64, u64, f64) = match args.tier {
         Tier::Quick => (16, 19, 100.0),
@@ -184,7 +242,7 @@ fn main() {
     let _ = std::fs::remove_dir_all(&dir);
 
     mon.finish(
-        "histories = seeded random sequences of (forward batch 1-40 | roll-back to: any earlier point, shallow, origin, first stored block, before the first stored block, highest stored block +-1, a block next to a 15-block range boundary, last import target | import(target <= tip) through the plain importer / the legacy / the v2 signable builder, targets: tip, near tip, above the highest stored block, range boundary +-1, at or below the highest stored block | import with a re-organisation of the node while the streamer polls | restart (database re-opened, new importer, new chain-sync connection) | connection lost | explicit prune 0-60) over a simulated node (fork tree; consecutive or gapped block numbers, sparse slots, transaction droughts, re-included transactions), ended by an import up to the tip; system under test = real CardanoChainDataImporter (+ByChunk/WithPruner for the signer flavour) + real CardanoBlockScanner/ChainReaderBlockStreamer + real file-backed sqlite repository + real signable builders, fed by a chain-sync server model. Oracle 1: tables == tables of a fresh importer on a fresh database importing the current canonical chain once to the same target (see history.rs for the early-return case); oracle 2: roots at <=9 beacons per import == roots of a fresh node at the same depth == roots of a fresh node that imported exactly to the beacon. Non-trivial = an import check preceded by at least one perturbation (roll-back that touches stored blocks, restart, lost connection, prune, non-monotone target, mid-import re-organisation), distinct by (configuration, event sequence so far); plus every (chain prefix, import depth > beacon, beacon) triple judged by oracle 2.",
+        "histories = seeded random sequences of (forward batch 1-40 | roll-back to: any earlier point, shallow, origin, first stored block, before the first stored block, highest stored block +-1, a block next to a 15-block range boundary, last import target; followed by a longer / shorter / no new fork | import(target <= tip, an existing block number) through the plain importer / the legacy / the v2 signable builder, targets: tip, near tip, above the highest stored block, range boundary +-1, at or below the highest stored block | import during which the node switches fork while the streamer polls | restart (database re-opened, new importer, new chain-sync connection) | connection lost | explicit prune keeping 0-60 blocks) over a simulated node (fork tree; consecutive block numbers, or in 1/3 of the histories gaps that depend on the height only incl. whole empty ranges; sparse slots; transaction droughts; transactions of abandoned blocks re-included), started and ended by an import; plus 1 fixed probe (design probe on sqlite) and 5 scripted hand-sized histories. System under test = real CardanoChainDataImporter (+ByChunk/WithPruner decorators for the signer flavour) + real CardanoBlockScanner/ChainReaderBlockStreamer + real file-backed sqlite repository (signer / aggregator connection options) + real signable builders, fed by the chain-sync server model of reader.rs; tables read through an independent read-only sqlite connection. Oracle 1: tables == tables of a fresh importer on a fresh database importing the current canonical chain once to the same target (early-return case: unchanged + part at or below the target), and that fresh import == specification model (model.rs); after restart / prune: unchanged. Oracle 2: roots at <=9 beacons per import: stored state == fresh node at the same depth == fresh node that imported exactly to the beacon == specification model. After an oracle-1 witness the store is wiped and the history goes on. Non-trivial = an import check preceded by at least one perturbation (roll-back that touches stored blocks, restart, lost connection, prune, non-monotone target, mid-import fork switch), distinct by (configuration, event sequence so far); plus every distinct (chain prefix, import depth > beacon, beacon) triple judged by oracle 2.",
         &[
             "chain-sync model of reader.rs stands for a Cardano node + PallasChainReader (follower semantics of ouroboros-consensus, pallas client agency rules); the node never re-adopts an abandoned fork",
             "import targets are <= the node's tip at the time of the call",
